@@ -105,6 +105,230 @@ theorem decimal_keeps (d : Char) (hd : ∀ m, m < 10 → digitChar m ≠ d) (n :
 
 theorem baseOf_eq (T : Cfg) (n : Str) : baseOf T n = baseL T (lower n) := rfl
 
+/-! #### blank-separated generic specs: `parseSp (spellOp p a b c) = some (p, a, b, c)` -/
+
+theorem blanks_succ (n : Nat) : blanks (n + 1) = ' ' :: blanks n := rfl
+
+theorem mem_blanks (c : Char) (n : Nat) (h : c ∈ blanks n) : c = ' ' := by
+  unfold blanks at h
+  exact (List.mem_replicate.1 h).2
+
+theorem blanks_reverse (n : Nat) : (blanks n).reverse = blanks n := by
+  unfold blanks; simp
+
+theorem skipBlanks_blanks (x : Str) (hx : ∀ c, x.head? = some c → c ≠ ' ') :
+    ∀ n, skipBlanks (blanks n ++ x) = (n, x) := by
+  intro n
+  induction n with
+  | zero =>
+    cases x with
+    | nil => rfl
+    | cons c cs =>
+      have : ¬ c = ' ' := hx c rfl
+      simp [blanks, skipBlanks, this]
+  | succ n ih =>
+    rw [blanks_succ]
+    simp [skipBlanks, ih]
+
+theorem kwSplit_append : ∀ (k r : Str), (∀ c ∈ k, c ≠ ' ' ∧ c ≠ '(') →
+    (∀ c, r.head? = some c → c = ' ' ∨ c = '(') → kwSplit (k ++ r) = (k, r) := by
+  intro k
+  induction k with
+  | nil =>
+    intro r _ hr
+    cases r with
+    | nil => rfl
+    | cons c cs =>
+      have := hr c rfl
+      simp [kwSplit, this]
+  | cons x xs ih =>
+    intro r hk hr
+    have hx := hk x (by simp)
+    have hx' : ¬ (x = ' ' ∨ x = '(') := by
+      intro h; rcases h with h | h
+      · exact hx.1 h
+      · exact hx.2 h
+    have := ih r (fun c hc => hk c (List.mem_cons_of_mem _ hc)) hr
+    simp [kwSplit, hx', this]
+
+/-- what makes a (keyword, operator) pair readable back from its spelling -/
+structure GoodCore (q : Str × Str) : Prop where
+  kw : ∀ c ∈ q.1, c ≠ ' ' ∧ c ≠ '('
+  op_ne : q.2 ≠ []
+  op_blank : ' ' ∉ q.2
+
+instance (q : Str × Str) : Decidable (GoodCore q) :=
+  decidable_of_iff ((∀ c ∈ q.1, c ≠ ' ' ∧ c ≠ '(') ∧ q.2 ≠ [] ∧ ' ' ∉ q.2)
+    ⟨fun h => ⟨h.1, h.2.1, h.2.2⟩, fun h => ⟨h.kw, h.op_ne, h.op_blank⟩⟩
+
+theorem head_not_blank (o x : Str) (hne : o ≠ []) (hb : ' ' ∉ o) :
+    ∀ c, (o ++ x).head? = some c → c ≠ ' ' := by
+  intro c hc
+  cases o with
+  | nil => exact absurd rfl hne
+  | cons y ys =>
+    simp at hc hb
+    rw [← hc]
+    exact fun e => hb.1 e.symm
+
+theorem parseSp_spell (q : Str × Str) (g : GoodCore q) (a b c : Nat) :
+    parseSp (spellOp q a b c) = some (q, a, b, c) := by
+  obtain ⟨k, o⟩ := q
+  have hk := g.kw
+  have hne := g.op_ne
+  have hb := g.op_blank
+  simp only at hk hne hb
+  have hrest : ∀ ch, (blanks a ++ '(' :: (blanks b ++ (o ++ (blanks c ++ [')'])))).head? = some ch →
+      ch = ' ' ∨ ch = '(' := by
+    intro ch h
+    cases a with
+    | zero => simp [blanks] at h; exact Or.inr h.symm
+    | succ n => rw [blanks_succ] at h; simp at h; exact Or.inl h.symm
+  have h1 := kwSplit_append k _ hk hrest
+  have h2 := skipBlanks_blanks ('(' :: (blanks b ++ (o ++ (blanks c ++ [')'])))) (by intro ch h; simp at h; rw [← h]; decide) a
+  have h3 := skipBlanks_blanks (o ++ (blanks c ++ [')'])) (head_not_blank o _ hne hb) b
+  have hrev : (o ++ (blanks c ++ [')'])).reverse = ')' :: (blanks c ++ o.reverse) := by
+    simp [blanks_reverse]
+  have hne' : o.reverse ≠ [] := by simpa using hne
+  have hb' : ' ' ∉ o.reverse := by simpa using hb
+  have h4 := skipBlanks_blanks (o.reverse ++ []) (head_not_blank o.reverse [] hne' hb') c
+  simp only [List.append_nil] at h4
+  simp only [parseSp, spellOp, h1, h2, h3, hrev, h4, if_true, List.reverse_reverse]
+
+theorem spellOp_inj (p q : Str × Str) (gp : GoodCore p) (gq : GoodCore q) (a b c a' b' c' : Nat)
+    (h : spellOp p a b c = spellOp q a' b' c') : p = q ∧ a = a' ∧ b = b' ∧ c = c' := by
+  have := parseSp_spell p gp a b c
+  rw [h, parseSp_spell q gq a' b' c'] at this
+  simp at this
+  obtain ⟨h1, h2, h3, h4⟩ := this
+  exact ⟨h1.symm, h2.symm, h3.symm, h4.symm⟩
+
+theorem opSpelled_form (l : Str) (h : OpSpelled l) : ∃ p ∈ opCores, ∃ a b c, l = spellOp p a b c := by
+  unfold OpSpelled at h
+  split at h
+  · rename_i p a b c _
+    exact ⟨p, h.1, a, b, c, h.2⟩
+  · exact h.elim
+
+theorem notOpImage_spell (T : Cfg) (q : Str × Str) (g : GoodCore q) (a b c : Nat)
+    (h : NotOpImage T (spellOp q a b c)) : q ∉ opCores.map (coreImg T) := by
+  unfold NotOpImage at h
+  rw [parseSp_spell q g a b c] at h
+  exact h
+
+theorem kwSplit_subset : ∀ (s : Str) (c : Char), c ∈ (kwSplit s).2 → c ∈ s := by
+  intro s
+  induction s with
+  | nil => intro c h; simp [kwSplit] at h
+  | cons x xs ih =>
+    intro c h
+    unfold kwSplit at h
+    split at h
+    · exact h
+    · exact List.mem_cons_of_mem _ (ih c h)
+
+theorem skipBlanks_subset : ∀ (s : Str) (c : Char), c ∈ (skipBlanks s).2 → c ∈ s := by
+  intro s
+  induction s with
+  | nil => intro c h; simp [skipBlanks] at h
+  | cons x xs ih =>
+    intro c h
+    unfold skipBlanks at h
+    split at h
+    · exact List.mem_cons_of_mem _ (ih c h)
+    · exact h
+
+/-- a string without `(` is not a generic spec -/
+theorem parseSp_none (l : Str) (h : '(' ∉ l) : parseSp l = none := by
+  unfold parseSp
+  simp only
+  split
+  · rfl
+  · rename_i o r2 e
+    have : o ∈ l := by
+      apply kwSplit_subset; apply skipBlanks_subset; rw [e]; simp
+    have ho : ¬ o = '(' := fun eo => h (eo ▸ this)
+    simp [ho]
+
+theorem notOpImage_of_no_paren (T : Cfg) (l : Str) (h : '(' ∉ l) : NotOpImage T l := by
+  unfold NotOpImage
+  rw [parseSp_none l h]
+  trivial
+
+/-! #### the replacement commutes with the spelling -/
+
+theorem replaceChar_append (c : Char) (rep : Str) : ∀ x y : Str,
+    replaceChar c rep (x ++ y) = replaceChar c rep x ++ replaceChar c rep y := by
+  intro x
+  induction x with
+  | nil => intro y; rfl
+  | cons a as ih =>
+    intro y
+    by_cases e : a = c <;> simp [replaceChar, e, ih]
+
+theorem replaceAll_append : ∀ (T : SymTable) (x y : Str),
+    replaceAll T (x ++ y) = replaceAll T x ++ replaceAll T y := by
+  intro T
+  induction T with
+  | nil => intro x y; rfl
+  | cons p t ih =>
+    intro x y
+    obtain ⟨c, rep⟩ := p
+    simp only [replaceAll, replaceChar_append, ih]
+
+theorem replaceAll_cons_id (T : SymTable) (d : Char) (x : Str) (hd : ∀ p ∈ T, p.1 ≠ d) :
+    replaceAll T (d :: x) = d :: replaceAll T x := by
+  have : d :: x = [d] ++ x := rfl
+  rw [this, replaceAll_append, replaceAll_id T [d] (by intro p hp; simp; exact hd p hp)]
+  rfl
+
+theorem replaceAll_blanks (T : SymTable) (hd : ∀ p ∈ T, p.1 ≠ ' ') (n : Nat) :
+    replaceAll T (blanks n) = blanks n :=
+  replaceAll_id T _ (fun p hp hm => hd p hp (mem_blanks _ _ hm))
+
+/-- no key of the table is a blank or a parenthesis -/
+def KeysClear (T : Cfg) : Prop := ∀ p ∈ T.table, p.1 ≠ ' ' ∧ p.1 ≠ '(' ∧ p.1 ≠ ')'
+
+instance (T : Cfg) : Decidable (KeysClear T) := by unfold KeysClear; infer_instance
+
+theorem replaceAll_spell (T : Cfg) (hk : KeysClear T) (p : Str × Str) (a b c : Nat) :
+    replaceAll T.table (spellOp p a b c) = spellOp (coreImg T p) a b c := by
+  have h0 : ∀ q ∈ T.table, q.1 ≠ ' ' := fun q hq => (hk q hq).1
+  have h1 : ∀ q ∈ T.table, q.1 ≠ '(' := fun q hq => (hk q hq).2.1
+  have h2 : ∀ q ∈ T.table, q.1 ≠ ')' := fun q hq => (hk q hq).2.2
+  have hnil : replaceAll T.table [] = [] := replaceAll_id _ _ (by simp)
+  simp only [spellOp, coreImg, replaceAll_append, replaceAll_cons_id _ _ _ h1, replaceAll_blanks _ h0,
+    replaceAll_cons_id _ _ _ h2, hnil]
+
+theorem spellOp_ne_nil (p : Str × Str) (a b c : Nat) : spellOp p a b c ≠ [] := by
+  unfold spellOp
+  intro h
+  have : '(' ∈ p.1 ++ (blanks a ++ '(' :: (blanks b ++ (p.2 ++ (blanks c ++ [')'])))) := by simp
+  rw [h] at this
+  cases this
+
+theorem baseL_spell (T : Cfg) (hk : KeysClear T) (p : Str × Str) (a b c : Nat) :
+    baseL T (spellOp p a b c) = spellOp (coreImg T p) a b c := by
+  unfold baseL
+  rw [replaceAll_spell T hk]
+  have := spellOp_ne_nil (coreImg T p) a b c
+  split
+  · rename_i e; exact absurd e this
+  · rename_i e; exact e.symm
+
+theorem mem_spellOp (d : Char) (p : Str × Str) (a b c : Nat) (h : d ∈ spellOp p a b c) :
+    d ∈ p.1 ∨ d ∈ p.2 ∨ d = ' ' ∨ d = '(' ∨ d = ')' := by
+  unfold spellOp at h
+  simp only [List.mem_append, List.mem_cons, List.mem_nil_iff, or_false] at h
+  rcases h with h | h | h | h | h | h | h
+  · exact Or.inl h
+  · exact Or.inr (Or.inr (Or.inl (mem_blanks _ _ h)))
+  · exact Or.inr (Or.inr (Or.inr (Or.inl h)))
+  · exact Or.inr (Or.inr (Or.inl (mem_blanks _ _ h)))
+  · exact Or.inr (Or.inl h)
+  · exact Or.inr (Or.inr (Or.inl (mem_blanks _ _ h)))
+  · exact Or.inr (Or.inr (Or.inr (Or.inr h)))
+
 /-- The finitely many facts about the table and the listed names (decided by
     evaluation on the generated table). -/
 structure TableOK (T : Cfg) (S : List Str) : Prop where
@@ -112,6 +336,19 @@ structure TableOK (T : Cfg) (S : List Str) : Prop where
   img_sep : ∀ x ∈ S, T.sep ∉ baseL T x
   img_inj : ∀ x ∈ S, ∀ y ∈ S, baseL T x = baseL T y → x = y
   unnamed_img : ∀ x ∈ S, baseL T x ≠ T.unnamed
+  /-- blanks and parentheses are not replaced: a generic spec keeps its spacing -/
+  keys_clear : KeysClear T
+  /-- the separator is none of the characters of a spelled generic spec -/
+  sep_clear : T.sep ≠ ' ' ∧ T.sep ≠ '(' ∧ T.sep ≠ ')'
+  /-- keyword and operator token are still recognisable after the replacement ... -/
+  core_good : ∀ p ∈ opCores, GoodCore p ∧ GoodCore (coreImg T p)
+  core_sep : ∀ p ∈ opCores, T.sep ∉ (coreImg T p).1 ∧ T.sep ∉ (coreImg T p).2
+  /-- ... and the replacement does not identify two operators -/
+  core_inj : ∀ p ∈ opCores, ∀ q ∈ opCores, coreImg T p = coreImg T q → p = q
+  /-- the unnamed stem is not the image of a generic spec -/
+  unnamed_core : NotOpImage T T.unnamed
+  /-- a listed name is a generic spec itself, or its image is not the image of one -/
+  listed_core : ∀ x ∈ S, OpSpelled x ∨ NotOpImage T (baseL T x)
 
 theorem plain_base (T : Cfg) (S : List Str) (n : Str) (h : Plain T S n) :
     baseOf T n = if lower n = [] then T.unnamed else lower n := by
@@ -120,18 +357,63 @@ theorem plain_base (T : Cfg) (S : List Str) (n : Str) (h : Plain T S n) :
   rw [replaceAll_id T.table (lower n) h.1]
   cases lower n <;> simp
 
+theorem spelled_sep (T : Cfg) (S : List Str) (ok : TableOK T S) (l : Str) (h : OpSpelled l) :
+    T.sep ∉ baseL T l := by
+  obtain ⟨p, hp, a, b, c, rfl⟩ := opSpelled_form l h
+  rw [baseL_spell T ok.keys_clear]
+  intro hm
+  rcases mem_spellOp _ _ _ _ _ hm with h | h | h | h | h
+  · exact (ok.core_sep p hp).1 h
+  · exact (ok.core_sep p hp).2 h
+  · exact ok.sep_clear.1 h
+  · exact ok.sep_clear.2.1 h
+  · exact ok.sep_clear.2.2 h
+
 theorem legal_sep (T : Cfg) (S : List Str) (ok : TableOK T S) (n : Str) (h : Legal T S n) :
     T.sep ∉ baseOf T n := by
-  rcases h with h | h
+  rcases h with h | h | h
   · rw [plain_base T S n h]
     split
     · exact ok.unnamed_sep
     · exact h.2.1
   · rw [baseOf_eq]; exact ok.img_sep _ h
+  · rw [baseOf_eq]; exact spelled_sep T S ok _ h
+
+/-- two generic specs (any spacing) with the same image are the same spelling -/
+theorem spelled_inj (T : Cfg) (S : List Str) (ok : TableOK T S) (x y : Str)
+    (hx : OpSpelled x) (hy : OpSpelled y) (h : baseL T x = baseL T y) : x = y := by
+  obtain ⟨p, hp, a, b, c, rfl⟩ := opSpelled_form x hx
+  obtain ⟨q, hq, a', b', c', rfl⟩ := opSpelled_form y hy
+  rw [baseL_spell T ok.keys_clear, baseL_spell T ok.keys_clear] at h
+  obtain ⟨e, ea, eb, ec⟩ := spellOp_inj _ _ (ok.core_good p hp).2 (ok.core_good q hq).2 _ _ _ _ _ _ h
+  rw [ok.core_inj p hp q hq e, ea, eb, ec]
+
+/-- a string that is not an image of a generic spec differs from the image of every spelled one -/
+theorem notImage_ne_spelled (T : Cfg) (S : List Str) (ok : TableOK T S) (l y : Str)
+    (hl : NotOpImage T l) (hy : OpSpelled y) : l ≠ baseL T y := by
+  obtain ⟨q, hq, a, b, c, rfl⟩ := opSpelled_form y hy
+  rw [baseL_spell T ok.keys_clear]
+  intro e
+  rw [e] at hl
+  exact notOpImage_spell T _ (ok.core_good q hq).2 a b c hl (List.mem_map.2 ⟨q, hq, rfl⟩)
 
 theorem legal_base_inj (T : Cfg) (S : List Str) (ok : TableOK T S) (a b : Str)
     (ha : Legal T S a) (hb : Legal T S b) (h : baseOf T a = baseOf T b) : lower a = lower b := by
-  rcases ha with ha | ha <;> rcases hb with hb | hb
+  -- plain vs spelled, used twice
+  have plain_spelled : ∀ x y : Str, Plain T S x → OpSpelled (lower y) → baseOf T x = baseOf T y → False := by
+    intro x y hx hy h
+    rw [plain_base T S x hx, baseOf_eq T y] at h
+    by_cases ex : lower x = [] <;> simp [ex] at h
+    · exact notImage_ne_spelled T S ok _ _ ok.unnamed_core hy h
+    · exact notImage_ne_spelled T S ok _ _ hx.2.2.2.2 hy h
+  have listed_spelled : ∀ x y : Str, lower x ∈ S → OpSpelled (lower y) → baseOf T x = baseOf T y →
+      lower x = lower y := by
+    intro x y hx hy h
+    rw [baseOf_eq, baseOf_eq] at h
+    rcases ok.listed_core _ hx with hs | hn
+    · exact spelled_inj T S ok _ _ hs hy h
+    · exact absurd h (notImage_ne_spelled T S ok _ _ hn hy)
+  rcases ha with ha | ha | ha <;> rcases hb with hb | hb | hb
   · rw [plain_base T S a ha, plain_base T S b hb] at h
     by_cases ea : lower a = [] <;> by_cases eb : lower b = [] <;> simp [ea, eb] at h
     · rw [ea, eb]
@@ -141,13 +423,19 @@ theorem legal_base_inj (T : Cfg) (S : List Str) (ok : TableOK T S) (a b : Str)
   · rw [plain_base T S a ha, baseOf_eq T b] at h
     by_cases ea : lower a = [] <;> simp [ea] at h
     · exact absurd h.symm (ok.unnamed_img _ hb)
-    · exact absurd (List.mem_map.2 ⟨lower b, hb, h.symm⟩) ha.2.2.2
+    · exact absurd (List.mem_map.2 ⟨lower b, hb, h.symm⟩) ha.2.2.2.1
+  · exact (plain_spelled a b ha hb h).elim
   · rw [plain_base T S b hb, baseOf_eq T a] at h
     by_cases eb : lower b = [] <;> simp [eb] at h
     · exact absurd h (ok.unnamed_img _ ha)
-    · exact absurd (List.mem_map.2 ⟨lower a, ha, h⟩) hb.2.2.2
+    · exact absurd (List.mem_map.2 ⟨lower a, ha, h⟩) hb.2.2.2.1
   · rw [baseOf_eq, baseOf_eq] at h
     exact ok.img_inj _ ha _ hb h
+  · exact listed_spelled a b ha hb h
+  · exact (plain_spelled b a hb ha h.symm).elim
+  · exact (listed_spelled b a hb ha h.symm).symm
+  · rw [baseOf_eq, baseOf_eq] at h
+    exact spelled_inj T S ok _ _ ha hb h
 
 /-! ### quoting and anchors -/
 
